@@ -42,7 +42,7 @@ def run(ck, fb):
         ck.require(len(ap.calls(r'ContextFutureSpawner::wait$|AsyncContext::wait$')) == 1, 'R08a', 'apply_snapshot:ctx.wait', ap.where(),
                    'the install future is not serialised with ctx.wait: later ApplyBatchRequests could overtake the snapshot load')
         rd = [(b, s) for b in inner for s in b.calls(r'SnapshotReader::init_by_file$')]
-        ck.require(len(rd) == 1, 'R08a', 'apply_snapshot:reads-installed-file', ap.where(), 'the installed file is not opened with SnapshotReader::init_by_file')
+        ck.require(len(rd) >= 1, 'R08a', 'apply_snapshot:reads-installed-file', ap.where(), 'the installed file is not opened with SnapshotReader::init_by_file')
         if ld and rd:
             b, s = ld[0]
             t = Taint(b, call_src=lambda t: (t.get('f') or {}).get('d', '').endswith('SnapshotReader::init_by_file'))
@@ -52,7 +52,7 @@ def run(ck, fb):
     if ap:
         inner = fb.tree(SA + 'apply_snapshot')[1:]
         sm = [(b, x) for b in inner for x in util.sends(b, r'RaftIndexRequest$', 'SaveMember')]
-        ck.require(len(sm) == 1, 'R08b', 'apply_snapshot:SaveMember', ap.where(), 'SaveMember is not sent on install')
+        ck.require(len(sm) >= 1, 'R08b', 'apply_snapshot:SaveMember', ap.where(), 'SaveMember is not sent on install')
         for (b, (s, m, v, a)) in sm:
             t = Taint(b, call_src=lambda t: (t.get('f') or {}).get('d', '').endswith('SnapshotReader::get_header'))
             for f in ('member', 'member_after_consensus', 'node_addr'):
@@ -72,7 +72,7 @@ def run(ck, fb):
                    'open:%screate_snapshot:truncate' % FS, b.where(),
                    'the install file snapshot_<id> is reopened without truncate: records of an interrupted earlier install are read back')
         sd = util.sends(b, r'RaftSnapshotRequest$', 'NewSnapshotForLoad')
-        ck.require(len(sd) == 1, 'R08c', 'create_snapshot:NewSnapshotForLoad', b.where(), 'install path/id is not taken from the snapshot manager')
+        ck.require(len(sd) >= 1, 'R08c', 'create_snapshot:NewSnapshotForLoad', b.where(), 'install path/id is not taken from the snapshot manager')
     ck.rule('R08d', 'same as R04b second chain: InstallSnapshot -> ApplySnapshot -> SplitOff -> InstallSnapshotPointerLog, each awaited')
     sub = type(ck)(ck.prop, fb, write=False)
     c04.r04b(sub, fb)
@@ -97,9 +97,9 @@ def run(ck, fb):
     ins = ck.body('rnacos::raft::filestore::raftsnapshot::RaftSnapshotManager::install_snapshot', 'R08e')
     if ins:
         cs = ins.calls(r'RaftSnapshotManager::complete_snapshot$')
-        ck.require(len(cs) == 1, 'R08e', 'install_snapshot:catalogues', ins.where(), 'install_snapshot does not catalogue the snapshot')
+        ck.require(len(cs) >= 1, 'R08e', 'install_snapshot:catalogues', ins.where(), 'install_snapshot does not catalogue the snapshot')
         rg = ins.aggregates(r'log::SnapshotRange$')
-        ck.require(len(rg) == 1, 'R08e', 'install_snapshot:range', ins.where(), 'SnapshotRange not built')
+        ck.require(len(rg) >= 1, 'R08e', 'install_snapshot:range', ins.where(), 'SnapshotRange not built')
         if rg:
             rv = rg[0][2]['rv']
             t1 = Taint(ins, local_src=[3])
@@ -118,4 +118,4 @@ def run(ck, fb):
         ck.require(len(ins) == 1 and len(sv) == 1 and cfg.dominates_blocks(sp, {sv[0][0].bb}, ins[0].bb), 'R08e', 'save_new_snapshot_pointer:insert+SaveLogs',
                    sp.where(), 'the pointer log range is not inserted together with saving the catalogue')
         wr = util.sends(sp, r'raftlog::RaftLogRequest$', 'Write')
-        ck.require(len(wr) == 1, 'R08e', 'save_new_snapshot_pointer:writes-pointer', sp.where(), 'the pointer record is not written into its log file')
+        ck.require(len(wr) >= 1, 'R08e', 'save_new_snapshot_pointer:writes-pointer', sp.where(), 'the pointer record is not written into its log file')
